@@ -246,6 +246,22 @@ theorem no_opaque_items :
       (match it with | .opaqueW _ => false | .cursorOnly _ => false | _ => true) = true := by
   decide +kernel
 
+/-- `balanced` without the hypothesis `SettableId`. -/
+def balanced_full : Prop :=
+  ∀ (m : Nat), m < 512 → ∀ (kittyFlags userCursorStyle k0 : Nat) (appId : String) (ops : List Op), (∀ op ∈ ops, op.ok) →
+    let e := envV m kittyFlags userCursorStyle appId
+    let t0 := t0V m e k0
+    restored t0 (shutdown e (runOps e (start e t0) ops)).t = true
+
+/-- …is false, and only because of the protocol: a terminal (assignment 64: OSC 176 only) whose original
+    application id is the single character `?`; the application calls `SetAppID("x")`; shutdown writes
+    `OSC 176 ; ? ST`, which is the query, and the id stays `x`.  So `SettableId` in `balanced` is needed. -/
+theorem balanced_full_fails : ¬ balanced_full := by
+  intro h
+  have := h 64 (by omega) 1 0 0 "?" [.setAppId "x"] (by intro op hop; simp at hop; subst hop; trivial)
+  revert this
+  decide +kernel
+
 /-- The application id `?` cannot be restored through OSC 176 (the sequence is the query): the
     hypothesis `SettableId` of `balanced` excludes exactly such ids. -/
 theorem unsettable_id_is_query : ¬ SettableId "?" := by
